@@ -144,6 +144,21 @@ func gen(tier string) []proto.Item {
 				}
 			}
 		}
+		// TCP SYN: a segment on the probed connection's ports, from the target, that acknowledges something else than the probe
+		// (a stale reset of an earlier connection on the same ports, a blind reset, a SYN-ACK for another sequence number),
+		// while the probes of the hops BEFORE the destination are outstanding: it answers nothing, the run goes on
+		if vi.Kind == "tcp" || vi.Kind == "tcpparis" {
+			for _, form := range []string{"rstack", "synack"} {
+				for _, op := range []string{"+256", "-256", "other", "zero", "swap"} {
+					for _, t := range []int{1, 2} {
+						s := base(v, false)
+						s.Inject = []proto.Inject{{OnTTL: t, AnswerTTL: t, Form: form, From: s.Target().String(), DelayUs: 1000, Tag: "noise",
+							Perturb: &simnet.Perturb{Field: "tcp.ack", Op: op, Other: 0x12345678}}}
+						items = append(items, proto.Item{Scn: s, Class: fmt.Sprintf("%s/%s/field-tcp.ack/%s/own-flow/interleaved/before-the-destination-is-reached", v, form, op)})
+					}
+				}
+			}
+		}
 		// a frame of the WRONG IP version: the reply a probe would be answered with, but carried in an IPv6 datagram between the
 		// IPv4-mapped forms (::ffff:a.b.c.d) of the run's two addresses, while that probe is outstanding (IPv4 runs; the direct
 		// replies: echo reply, SYN-ACK, RST, selective acknowledgement)
